@@ -16,7 +16,7 @@ def main():
                     shutil.copy(os.path.join(V, root, f), d); mods.append(f)
         bad = 0
         for f in mods:
-            p = subprocess.run(["java", "-cp", "/opt/veriftools/tla/tla2tools.jar:/opt/veriftools/tla/CommunityModules-deps.jar", "tla2sany.SANY", f],
+            p = subprocess.run(["java", "-Djava.io.tmpdir=" + d, "-cp", "/opt/veriftools/tla/tla2tools.jar:/opt/veriftools/tla/CommunityModules-deps.jar", "tla2sany.SANY", f],
                                cwd=d, capture_output=True, text=True)
             if p.returncode != 0 or "*** Errors" in p.stdout or "Fatal errors" in p.stdout:
                 print("SANY failed on", f); print(p.stdout[-2000:]); bad += 1
